@@ -1,11 +1,10 @@
 (* C09: statements.  Each theorem is only an [exact] of a lemma proved in the other files. *)
 From Coq Require Import Reals ZArith List Lra.
-From PyLib Require Import Ideal Sphere.
-From PyLib Require Import PyVal PyBuiltins.
-From Gen Require Import M_base M_Angle M_Epoch M_Earth M_Minor.
+From PyLib Require Import PyVal PyBuiltins Ideal Sphere.
+From Spec Require Import AngleSpec.
+From Gen Require Import M_base M_Angle M_Epoch M_Coordinates M_Earth M_Sun M_Minor.
 From Gen Require Import M_Mercury M_Venus M_Mars M_Jupiter M_Saturn M_Uranus M_Neptune.
-From Proofs.C09 Require Import C09_spec C09_minor C09_A_defs C09_geo.
-From Proofs.C09 Require Import C09_lt_Mercury C09_lt_Venus C09_lt_Mars C09_lt_Jupiter C09_lt_Saturn C09_lt_Uranus C09_lt_Neptune.
+From Proofs.C09 Require Import C09_spec C09_minor C09_A_defs C09_geo C09_body C09_planets C09_mbody C09_mgeo.
 Import ListNotations.
 Open Scope R_scope.
 
@@ -57,59 +56,223 @@ Theorem C09_minor_gauss om inc u :
   x = xe /\ y = ye * ce - ze * se /\ z = ye * se + ze * ce.
 Proof. exact (gauss_xyz om inc u). Qed.
 
-(* [ideal, generated code, callees abstracted] light-time stage of <Planet>.geocentric_position:
-   whatever the planet's and the Earth's geometric_heliocentric_position(epoch, tofk5=False) return
-   (l,b,r) and (l0,b0,r0) at the CALLER's epoch j, the body next asks Epoch.__isub__ for
-   (epoch j) - tau with tau = 0.0057755183 * |planet - Earth| (C09_geo.tau_of): if that call
-   failed the body would fail.  The caller's Epoch value itself is what is passed on. *)
-Theorem C09_light_time_Mercury (pl pb pr el eb er : R -> R) :
-  (forall j, Mercury_geometric_heliocentric_position Rops (C09_geo.ep j) (VBool false) = VTuple [C09_A_defs.ang (pl j); C09_A_defs.ang (pb j); VFloat (pr j)]) ->
-  (forall j, Earth_geometric_heliocentric_position Rops (C09_geo.ep j) (VBool false) = VTuple [C09_A_defs.ang (el j); C09_A_defs.ang (eb j); VFloat (er j)]) ->
-  forall j, Epoch___isub__ Rops (C09_geo.ep j) (VFloat (tau_of (pl j) (pb j) (pr j) (el j) (eb j) (er j))) = VErr ValueError ->
-  Mercury_geocentric_position Rops (C09_geo.ep j) = VErr ValueError.
-Proof. exact (light_time_stage_Mercury pl pb pr el eb er). Qed.
+(* [ideal, generated code, callees abstracted] the WHOLE body of <Planet>.geocentric_position.
+   Whatever the callees return -- planet and Earth geometric_heliocentric_position(., tofk5=False)
+   = (pl,pb,pr), (el,eb,er); Epoch.__isub__(epoch j, tau) = epoch j1 for exactly
+   tau = 0.0057755183*|planet(j) - Earth(j)| (C09_geo.tau_of); nutation_longitude, true_obliquity,
+   Sun.apparent_geocentric_position, ecliptical2equatorial -- the body
+   * takes the planet a second time at j1 and the Earth at the caller's epoch j,
+   * forms lambda = atan2(y,x), beta = atan2(z, sqrt(x^2+y^2)) of the difference (C09_body.lamG, betG),
+   * adds the aberration terms abl/abb with k = 20.49552 and the e, pi polynomials at T(j1), the FK5
+     terms and the nutation of j1 (C09_body.LAMG, BETG; each sum reduced by Angle's red360),
+   * returns ecliptical2equatorial(LAMG, BETG, true_obliquity(j1)) and the elongation
+     ELONG = acos(cos BETG cos(LAMG - Lsun(j1))) with the SUN TAKEN AT THE SHIFTED EPOCH j1
+     (this is the known finding elongation-sun-at-light-time-epoch, here as a theorem).
+   Side conditions: |T(j1)| <= 40 centuries, |beta| <= 25 deg, |B(j1)| <= 25 deg.
+   JDE2000 = 2451545 is proved (C09_J_jde), not assumed. *)
+Theorem C09_body_Mercury (pl pb pr el eb er nut obl sl sb sr : R -> R) (era edec : R -> R -> R -> R) (j j1 : R) :
+  (forall j, Mercury_geometric_heliocentric_position Rops (ep j) (VBool false) = VTuple [ang (pl j); ang (pb j); VFloat (pr j)]) ->
+  (forall j, Earth_geometric_heliocentric_position Rops (ep j) (VBool false) = VTuple [ang (el j); ang (eb j); VFloat (er j)]) ->
+  Epoch___isub__ Rops (ep j) (VFloat (tau_of (pl j) (pb j) (pr j) (el j) (eb j) (er j))) = ep j1 ->
+  (forall j, f_nutation_longitude Rops (VTuple [ep j]) (VDict []) = ang (nut j)) ->
+  (forall j, f_true_obliquity Rops (VTuple [ep j]) (VDict []) = ang (obl j)) ->
+  (forall j, Sun_apparent_geocentric_position Rops (ep j) (VBool true) = VTuple [ang (sl j); ang (sb j); VFloat (sr j)]) ->
+  (forall a b e, f_ecliptical2equatorial Rops (ang a) (ang b) (ang e) = VTuple [ang (era a b e); ang (edec a b e)]) ->
+  -40 <= tcen j1 <= 40 ->
+  Rabs (betG (pl j1) (pb j1) (pr j1) (el j) (eb j) (er j)) <= 25 * (PI / 180) ->
+  Rabs (pb j1 * (PI / 180)) <= 25 * (PI / 180) ->
+  Mercury_geocentric_position Rops (ep j) =
+  VTuple [ang (era (LAMG (pl j1) (pb j1) (pr j1) (el j) (eb j) (er j) j1 (nut j1)) (BETG (pl j1) (pb j1) (pr j1) (el j) (eb j) (er j) j1) (obl j1));
+          ang (edec (LAMG (pl j1) (pb j1) (pr j1) (el j) (eb j) (er j) j1 (nut j1)) (BETG (pl j1) (pb j1) (pr j1) (el j) (eb j) (er j) j1) (obl j1));
+          ang (ELONG (pl j1) (pb j1) (pr j1) (el j) (eb j) (er j) j1 (nut j1) (sl j1))].
+Proof. exact (planet_full_Mercury pl pb pr el eb er nut obl sl sb sr era edec j j1). Qed.
 
-Theorem C09_light_time_Venus (pl pb pr el eb er : R -> R) :
-  (forall j, Venus_geometric_heliocentric_position Rops (C09_geo.ep j) (VBool false) = VTuple [C09_A_defs.ang (pl j); C09_A_defs.ang (pb j); VFloat (pr j)]) ->
-  (forall j, Earth_geometric_heliocentric_position Rops (C09_geo.ep j) (VBool false) = VTuple [C09_A_defs.ang (el j); C09_A_defs.ang (eb j); VFloat (er j)]) ->
-  forall j, Epoch___isub__ Rops (C09_geo.ep j) (VFloat (tau_of (pl j) (pb j) (pr j) (el j) (eb j) (er j))) = VErr ValueError ->
-  Venus_geocentric_position Rops (C09_geo.ep j) = VErr ValueError.
-Proof. exact (light_time_stage_Venus pl pb pr el eb er). Qed.
+Theorem C09_body_Venus (pl pb pr el eb er nut obl sl sb sr : R -> R) (era edec : R -> R -> R -> R) (j j1 : R) :
+  (forall j, Venus_geometric_heliocentric_position Rops (ep j) (VBool false) = VTuple [ang (pl j); ang (pb j); VFloat (pr j)]) ->
+  (forall j, Earth_geometric_heliocentric_position Rops (ep j) (VBool false) = VTuple [ang (el j); ang (eb j); VFloat (er j)]) ->
+  Epoch___isub__ Rops (ep j) (VFloat (tau_of (pl j) (pb j) (pr j) (el j) (eb j) (er j))) = ep j1 ->
+  (forall j, f_nutation_longitude Rops (VTuple [ep j]) (VDict []) = ang (nut j)) ->
+  (forall j, f_true_obliquity Rops (VTuple [ep j]) (VDict []) = ang (obl j)) ->
+  (forall j, Sun_apparent_geocentric_position Rops (ep j) (VBool true) = VTuple [ang (sl j); ang (sb j); VFloat (sr j)]) ->
+  (forall a b e, f_ecliptical2equatorial Rops (ang a) (ang b) (ang e) = VTuple [ang (era a b e); ang (edec a b e)]) ->
+  -40 <= tcen j1 <= 40 ->
+  Rabs (betG (pl j1) (pb j1) (pr j1) (el j) (eb j) (er j)) <= 25 * (PI / 180) ->
+  Rabs (pb j1 * (PI / 180)) <= 25 * (PI / 180) ->
+  Venus_geocentric_position Rops (ep j) =
+  VTuple [ang (era (LAMG (pl j1) (pb j1) (pr j1) (el j) (eb j) (er j) j1 (nut j1)) (BETG (pl j1) (pb j1) (pr j1) (el j) (eb j) (er j) j1) (obl j1));
+          ang (edec (LAMG (pl j1) (pb j1) (pr j1) (el j) (eb j) (er j) j1 (nut j1)) (BETG (pl j1) (pb j1) (pr j1) (el j) (eb j) (er j) j1) (obl j1));
+          ang (ELONG (pl j1) (pb j1) (pr j1) (el j) (eb j) (er j) j1 (nut j1) (sl j1))].
+Proof. exact (planet_full_Venus pl pb pr el eb er nut obl sl sb sr era edec j j1). Qed.
 
-Theorem C09_light_time_Mars (pl pb pr el eb er : R -> R) :
-  (forall j, Mars_geometric_heliocentric_position Rops (C09_geo.ep j) (VBool false) = VTuple [C09_A_defs.ang (pl j); C09_A_defs.ang (pb j); VFloat (pr j)]) ->
-  (forall j, Earth_geometric_heliocentric_position Rops (C09_geo.ep j) (VBool false) = VTuple [C09_A_defs.ang (el j); C09_A_defs.ang (eb j); VFloat (er j)]) ->
-  forall j, Epoch___isub__ Rops (C09_geo.ep j) (VFloat (tau_of (pl j) (pb j) (pr j) (el j) (eb j) (er j))) = VErr ValueError ->
-  Mars_geocentric_position Rops (C09_geo.ep j) = VErr ValueError.
-Proof. exact (light_time_stage_Mars pl pb pr el eb er). Qed.
+Theorem C09_body_Mars (pl pb pr el eb er nut obl sl sb sr : R -> R) (era edec : R -> R -> R -> R) (j j1 : R) :
+  (forall j, Mars_geometric_heliocentric_position Rops (ep j) (VBool false) = VTuple [ang (pl j); ang (pb j); VFloat (pr j)]) ->
+  (forall j, Earth_geometric_heliocentric_position Rops (ep j) (VBool false) = VTuple [ang (el j); ang (eb j); VFloat (er j)]) ->
+  Epoch___isub__ Rops (ep j) (VFloat (tau_of (pl j) (pb j) (pr j) (el j) (eb j) (er j))) = ep j1 ->
+  (forall j, f_nutation_longitude Rops (VTuple [ep j]) (VDict []) = ang (nut j)) ->
+  (forall j, f_true_obliquity Rops (VTuple [ep j]) (VDict []) = ang (obl j)) ->
+  (forall j, Sun_apparent_geocentric_position Rops (ep j) (VBool true) = VTuple [ang (sl j); ang (sb j); VFloat (sr j)]) ->
+  (forall a b e, f_ecliptical2equatorial Rops (ang a) (ang b) (ang e) = VTuple [ang (era a b e); ang (edec a b e)]) ->
+  -40 <= tcen j1 <= 40 ->
+  Rabs (betG (pl j1) (pb j1) (pr j1) (el j) (eb j) (er j)) <= 25 * (PI / 180) ->
+  Rabs (pb j1 * (PI / 180)) <= 25 * (PI / 180) ->
+  Mars_geocentric_position Rops (ep j) =
+  VTuple [ang (era (LAMG (pl j1) (pb j1) (pr j1) (el j) (eb j) (er j) j1 (nut j1)) (BETG (pl j1) (pb j1) (pr j1) (el j) (eb j) (er j) j1) (obl j1));
+          ang (edec (LAMG (pl j1) (pb j1) (pr j1) (el j) (eb j) (er j) j1 (nut j1)) (BETG (pl j1) (pb j1) (pr j1) (el j) (eb j) (er j) j1) (obl j1));
+          ang (ELONG (pl j1) (pb j1) (pr j1) (el j) (eb j) (er j) j1 (nut j1) (sl j1))].
+Proof. exact (planet_full_Mars pl pb pr el eb er nut obl sl sb sr era edec j j1). Qed.
 
-Theorem C09_light_time_Jupiter (pl pb pr el eb er : R -> R) :
-  (forall j, Jupiter_geometric_heliocentric_position Rops (C09_geo.ep j) (VBool false) = VTuple [C09_A_defs.ang (pl j); C09_A_defs.ang (pb j); VFloat (pr j)]) ->
-  (forall j, Earth_geometric_heliocentric_position Rops (C09_geo.ep j) (VBool false) = VTuple [C09_A_defs.ang (el j); C09_A_defs.ang (eb j); VFloat (er j)]) ->
-  forall j, Epoch___isub__ Rops (C09_geo.ep j) (VFloat (tau_of (pl j) (pb j) (pr j) (el j) (eb j) (er j))) = VErr ValueError ->
-  Jupiter_geocentric_position Rops (C09_geo.ep j) = VErr ValueError.
-Proof. exact (light_time_stage_Jupiter pl pb pr el eb er). Qed.
+Theorem C09_body_Jupiter (pl pb pr el eb er nut obl sl sb sr : R -> R) (era edec : R -> R -> R -> R) (j j1 : R) :
+  (forall j, Jupiter_geometric_heliocentric_position Rops (ep j) (VBool false) = VTuple [ang (pl j); ang (pb j); VFloat (pr j)]) ->
+  (forall j, Earth_geometric_heliocentric_position Rops (ep j) (VBool false) = VTuple [ang (el j); ang (eb j); VFloat (er j)]) ->
+  Epoch___isub__ Rops (ep j) (VFloat (tau_of (pl j) (pb j) (pr j) (el j) (eb j) (er j))) = ep j1 ->
+  (forall j, f_nutation_longitude Rops (VTuple [ep j]) (VDict []) = ang (nut j)) ->
+  (forall j, f_true_obliquity Rops (VTuple [ep j]) (VDict []) = ang (obl j)) ->
+  (forall j, Sun_apparent_geocentric_position Rops (ep j) (VBool true) = VTuple [ang (sl j); ang (sb j); VFloat (sr j)]) ->
+  (forall a b e, f_ecliptical2equatorial Rops (ang a) (ang b) (ang e) = VTuple [ang (era a b e); ang (edec a b e)]) ->
+  -40 <= tcen j1 <= 40 ->
+  Rabs (betG (pl j1) (pb j1) (pr j1) (el j) (eb j) (er j)) <= 25 * (PI / 180) ->
+  Rabs (pb j1 * (PI / 180)) <= 25 * (PI / 180) ->
+  Jupiter_geocentric_position Rops (ep j) =
+  VTuple [ang (era (LAMG (pl j1) (pb j1) (pr j1) (el j) (eb j) (er j) j1 (nut j1)) (BETG (pl j1) (pb j1) (pr j1) (el j) (eb j) (er j) j1) (obl j1));
+          ang (edec (LAMG (pl j1) (pb j1) (pr j1) (el j) (eb j) (er j) j1 (nut j1)) (BETG (pl j1) (pb j1) (pr j1) (el j) (eb j) (er j) j1) (obl j1));
+          ang (ELONG (pl j1) (pb j1) (pr j1) (el j) (eb j) (er j) j1 (nut j1) (sl j1))].
+Proof. exact (planet_full_Jupiter pl pb pr el eb er nut obl sl sb sr era edec j j1). Qed.
 
-Theorem C09_light_time_Saturn (pl pb pr el eb er : R -> R) :
-  (forall j, Saturn_geometric_heliocentric_position Rops (C09_geo.ep j) (VBool false) = VTuple [C09_A_defs.ang (pl j); C09_A_defs.ang (pb j); VFloat (pr j)]) ->
-  (forall j, Earth_geometric_heliocentric_position Rops (C09_geo.ep j) (VBool false) = VTuple [C09_A_defs.ang (el j); C09_A_defs.ang (eb j); VFloat (er j)]) ->
-  forall j, Epoch___isub__ Rops (C09_geo.ep j) (VFloat (tau_of (pl j) (pb j) (pr j) (el j) (eb j) (er j))) = VErr ValueError ->
-  Saturn_geocentric_position Rops (C09_geo.ep j) = VErr ValueError.
-Proof. exact (light_time_stage_Saturn pl pb pr el eb er). Qed.
+Theorem C09_body_Saturn (pl pb pr el eb er nut obl sl sb sr : R -> R) (era edec : R -> R -> R -> R) (j j1 : R) :
+  (forall j, Saturn_geometric_heliocentric_position Rops (ep j) (VBool false) = VTuple [ang (pl j); ang (pb j); VFloat (pr j)]) ->
+  (forall j, Earth_geometric_heliocentric_position Rops (ep j) (VBool false) = VTuple [ang (el j); ang (eb j); VFloat (er j)]) ->
+  Epoch___isub__ Rops (ep j) (VFloat (tau_of (pl j) (pb j) (pr j) (el j) (eb j) (er j))) = ep j1 ->
+  (forall j, f_nutation_longitude Rops (VTuple [ep j]) (VDict []) = ang (nut j)) ->
+  (forall j, f_true_obliquity Rops (VTuple [ep j]) (VDict []) = ang (obl j)) ->
+  (forall j, Sun_apparent_geocentric_position Rops (ep j) (VBool true) = VTuple [ang (sl j); ang (sb j); VFloat (sr j)]) ->
+  (forall a b e, f_ecliptical2equatorial Rops (ang a) (ang b) (ang e) = VTuple [ang (era a b e); ang (edec a b e)]) ->
+  -40 <= tcen j1 <= 40 ->
+  Rabs (betG (pl j1) (pb j1) (pr j1) (el j) (eb j) (er j)) <= 25 * (PI / 180) ->
+  Rabs (pb j1 * (PI / 180)) <= 25 * (PI / 180) ->
+  Saturn_geocentric_position Rops (ep j) =
+  VTuple [ang (era (LAMG (pl j1) (pb j1) (pr j1) (el j) (eb j) (er j) j1 (nut j1)) (BETG (pl j1) (pb j1) (pr j1) (el j) (eb j) (er j) j1) (obl j1));
+          ang (edec (LAMG (pl j1) (pb j1) (pr j1) (el j) (eb j) (er j) j1 (nut j1)) (BETG (pl j1) (pb j1) (pr j1) (el j) (eb j) (er j) j1) (obl j1));
+          ang (ELONG (pl j1) (pb j1) (pr j1) (el j) (eb j) (er j) j1 (nut j1) (sl j1))].
+Proof. exact (planet_full_Saturn pl pb pr el eb er nut obl sl sb sr era edec j j1). Qed.
 
-Theorem C09_light_time_Uranus (pl pb pr el eb er : R -> R) :
-  (forall j, Uranus_geometric_heliocentric_position Rops (C09_geo.ep j) (VBool false) = VTuple [C09_A_defs.ang (pl j); C09_A_defs.ang (pb j); VFloat (pr j)]) ->
-  (forall j, Earth_geometric_heliocentric_position Rops (C09_geo.ep j) (VBool false) = VTuple [C09_A_defs.ang (el j); C09_A_defs.ang (eb j); VFloat (er j)]) ->
-  forall j, Epoch___isub__ Rops (C09_geo.ep j) (VFloat (tau_of (pl j) (pb j) (pr j) (el j) (eb j) (er j))) = VErr ValueError ->
-  Uranus_geocentric_position Rops (C09_geo.ep j) = VErr ValueError.
-Proof. exact (light_time_stage_Uranus pl pb pr el eb er). Qed.
+Theorem C09_body_Uranus (pl pb pr el eb er nut obl sl sb sr : R -> R) (era edec : R -> R -> R -> R) (j j1 : R) :
+  (forall j, Uranus_geometric_heliocentric_position Rops (ep j) (VBool false) = VTuple [ang (pl j); ang (pb j); VFloat (pr j)]) ->
+  (forall j, Earth_geometric_heliocentric_position Rops (ep j) (VBool false) = VTuple [ang (el j); ang (eb j); VFloat (er j)]) ->
+  Epoch___isub__ Rops (ep j) (VFloat (tau_of (pl j) (pb j) (pr j) (el j) (eb j) (er j))) = ep j1 ->
+  (forall j, f_nutation_longitude Rops (VTuple [ep j]) (VDict []) = ang (nut j)) ->
+  (forall j, f_true_obliquity Rops (VTuple [ep j]) (VDict []) = ang (obl j)) ->
+  (forall j, Sun_apparent_geocentric_position Rops (ep j) (VBool true) = VTuple [ang (sl j); ang (sb j); VFloat (sr j)]) ->
+  (forall a b e, f_ecliptical2equatorial Rops (ang a) (ang b) (ang e) = VTuple [ang (era a b e); ang (edec a b e)]) ->
+  -40 <= tcen j1 <= 40 ->
+  Rabs (betG (pl j1) (pb j1) (pr j1) (el j) (eb j) (er j)) <= 25 * (PI / 180) ->
+  Rabs (pb j1 * (PI / 180)) <= 25 * (PI / 180) ->
+  Uranus_geocentric_position Rops (ep j) =
+  VTuple [ang (era (LAMG (pl j1) (pb j1) (pr j1) (el j) (eb j) (er j) j1 (nut j1)) (BETG (pl j1) (pb j1) (pr j1) (el j) (eb j) (er j) j1) (obl j1));
+          ang (edec (LAMG (pl j1) (pb j1) (pr j1) (el j) (eb j) (er j) j1 (nut j1)) (BETG (pl j1) (pb j1) (pr j1) (el j) (eb j) (er j) j1) (obl j1));
+          ang (ELONG (pl j1) (pb j1) (pr j1) (el j) (eb j) (er j) j1 (nut j1) (sl j1))].
+Proof. exact (planet_full_Uranus pl pb pr el eb er nut obl sl sb sr era edec j j1). Qed.
 
-Theorem C09_light_time_Neptune (pl pb pr el eb er : R -> R) :
-  (forall j, Neptune_geometric_heliocentric_position Rops (C09_geo.ep j) (VBool false) = VTuple [C09_A_defs.ang (pl j); C09_A_defs.ang (pb j); VFloat (pr j)]) ->
-  (forall j, Earth_geometric_heliocentric_position Rops (C09_geo.ep j) (VBool false) = VTuple [C09_A_defs.ang (el j); C09_A_defs.ang (eb j); VFloat (er j)]) ->
-  forall j, Epoch___isub__ Rops (C09_geo.ep j) (VFloat (tau_of (pl j) (pb j) (pr j) (el j) (eb j) (er j))) = VErr ValueError ->
-  Neptune_geocentric_position Rops (C09_geo.ep j) = VErr ValueError.
-Proof. exact (light_time_stage_Neptune pl pb pr el eb er). Qed.
+Theorem C09_body_Neptune (pl pb pr el eb er nut obl sl sb sr : R -> R) (era edec : R -> R -> R -> R) (j j1 : R) :
+  (forall j, Neptune_geometric_heliocentric_position Rops (ep j) (VBool false) = VTuple [ang (pl j); ang (pb j); VFloat (pr j)]) ->
+  (forall j, Earth_geometric_heliocentric_position Rops (ep j) (VBool false) = VTuple [ang (el j); ang (eb j); VFloat (er j)]) ->
+  Epoch___isub__ Rops (ep j) (VFloat (tau_of (pl j) (pb j) (pr j) (el j) (eb j) (er j))) = ep j1 ->
+  (forall j, f_nutation_longitude Rops (VTuple [ep j]) (VDict []) = ang (nut j)) ->
+  (forall j, f_true_obliquity Rops (VTuple [ep j]) (VDict []) = ang (obl j)) ->
+  (forall j, Sun_apparent_geocentric_position Rops (ep j) (VBool true) = VTuple [ang (sl j); ang (sb j); VFloat (sr j)]) ->
+  (forall a b e, f_ecliptical2equatorial Rops (ang a) (ang b) (ang e) = VTuple [ang (era a b e); ang (edec a b e)]) ->
+  -40 <= tcen j1 <= 40 ->
+  Rabs (betG (pl j1) (pb j1) (pr j1) (el j) (eb j) (er j)) <= 25 * (PI / 180) ->
+  Rabs (pb j1 * (PI / 180)) <= 25 * (PI / 180) ->
+  Neptune_geocentric_position Rops (ep j) =
+  VTuple [ang (era (LAMG (pl j1) (pb j1) (pr j1) (el j) (eb j) (er j) j1 (nut j1)) (BETG (pl j1) (pb j1) (pr j1) (el j) (eb j) (er j) j1) (obl j1));
+          ang (edec (LAMG (pl j1) (pb j1) (pr j1) (el j) (eb j) (er j) j1 (nut j1)) (BETG (pl j1) (pb j1) (pr j1) (el j) (eb j) (er j) j1) (obl j1));
+          ang (ELONG (pl j1) (pb j1) (pr j1) (el j) (eb j) (er j) j1 (nut j1) (sl j1))].
+Proof. exact (planet_full_Neptune pl pb pr el eb er nut obl sl sb sr era edec j j1). Qed.
+
+(* [generated closed forms -> spec] lambda, beta of the body are the direction of planet(j1) - Earth(j) *)
+Theorem C09_body_direction l b r l0 b0 r0 : X2 l b r l0 b0 r0 <> 0 \/ Y2 l b r l0 b0 r0 <> 0 ->
+  X2 l b r l0 b0 r0 = norm3 (X2 l b r l0 b0 r0) (Y2 l b r l0 b0 r0) (Z2 b r b0 r0) * (cos (betG l b r l0 b0 r0) * cos (lamG l b r l0 b0 r0)) /\
+  Y2 l b r l0 b0 r0 = norm3 (X2 l b r l0 b0 r0) (Y2 l b r l0 b0 r0) (Z2 b r b0 r0) * (cos (betG l b r l0 b0 r0) * sin (lamG l b r l0 b0 r0)) /\
+  Z2 b r b0 r0 = norm3 (X2 l b r l0 b0 r0) (Y2 l b r l0 b0 r0) (Z2 b r b0 r0) * sin (betG l b r l0 b0 r0) /\
+  - PI < lamG l b r l0 b0 r0 <= PI /\ - (PI / 2) < betG l b r l0 b0 r0 < PI / 2.
+Proof. exact (body_direction l b r l0 b0 r0). Qed.
+
+(* [generated closed forms -> spec] what the body adds to (lambda, beta) -- aberration + FK5 + nutation --
+   is at most 0.02 degree *)
+Theorem C09_body_corrections l b r l0 b0 r0 j1 nutv :
+  -40 <= tG j1 <= 40 -> Rabs (betG l b r l0 b0 r0) <= 25 * (PI / 180) -> Rabs (b * (PI / 180)) <= 25 * (PI / 180) ->
+  Rabs (nutv * 3600) <= 1903 / 100 ->
+  (Rabs (dl1G l b r l0 b0 r0 j1 + (Rlit (-9033) (-5) + dl2aG l b r l0 b0 r0 j1) + nutv * 3600)
+   + Rabs (db1G l b r l0 b0 r0 j1 + db2G l b r l0 b0 r0 j1)) / 3600 <= 2 / 100.
+Proof. exact (body_corrections_small l b r l0 b0 r0 j1 nutv). Qed.
+
+(* [generated closed forms -> spec] the returned elongation is acos(cos B cos(L - Lsun)) in degrees, in [0,180] *)
+Theorem C09_body_elongation l b r l0 b0 r0 j1 nutv slv :
+  ELONG l b r l0 b0 r0 j1 nutv slv = r2d (elong (BETG l b r l0 b0 r0 j1 * (PI / 180)) (LAMG l b r l0 b0 r0 j1 nutv * (PI / 180)) (slv * (PI / 180))) /\
+  0 <= ELONG l b r l0 b0 r0 j1 nutv slv <= 180 /\
+  cos (ELONG l b r l0 b0 r0 j1 nutv slv * (PI / 180)) =
+  cos (BETG l b r l0 b0 r0 j1 * (PI / 180)) * cos (LAMG l b r l0 b0 r0 j1 nutv * (PI / 180) - slv * (PI / 180)).
+Proof. exact (body_elongation l b r l0 b0 r0 j1 nutv slv). Qed.
+
+(* [ideal, generated code] Minor.geocentric_position, elliptic regime e < 0.98: kepler_equation path,
+   r = a(1 - e cos E), two passes (t - T, then t - T - tau with tau = 0.0057755183*|body + Sun|),
+   ra/dec/elongation = C09_mbody.raM/decM/psiM *)
+Theorem C09_minor_geo_elliptic (aa bb cc am bm cm q e inc om w tp n a : R) (kE kv : R -> R -> R) :
+  (forall e0 m, f_kepler_equation Rops (VFloat e0) (ang m) = VTuple [ang (kE e0 m); ang (kv e0 m)]) ->
+  (forall e0 m, -360 < kE e0 m < 360) ->
+  forall j sxj syj szj : R,
+  Sun_rectangular_coordinates_j2000 Rops (C09_geo.ep j) = VTuple [VFloat sxj; VFloat syj; VFloat szj] ->
+  e < Rlit 98 (-2) ->
+  denM aa bb cc am bm cm w sxj syj szj (j - tp) (vfE e n kv) (rfE e n a kE) <> 0 ->
+  Minor_geocentric_position Rops (mobj aa bb cc am bm cm q e inc om w tp n a) (C09_geo.ep j) =
+  VTuple [ang (raM aa bb cc am bm cm w sxj syj szj (j - tp) (vfE e n kv) (rfE e n a kE));
+          ang (decM aa bb cc am bm cm w sxj syj szj (j - tp) (vfE e n kv) (rfE e n a kE));
+          ang (psiM aa bb cc am bm cm w sxj syj szj (j - tp) (vfE e n kv) (rfE e n a kE))].
+Proof. exact (minor_geo_elliptic aa bb cc am bm cm q e inc om w tp n a kE kv). Qed.
+
+(* [ideal, generated code] near-parabolic regime 0.98 <= e, |e - 1| >= tol: _near_parabolic path *)
+Theorem C09_minor_geo_near_parabolic (aa bb cc am bm cm q e inc om w tp n a : R) (npv npr : R -> R) :
+  (forall t, Minor__near_parabolic Rops (mobj aa bb cc am bm cm q e inc om w tp n a) (VFloat t) = VTuple [ang (npv t); VFloat (npr t)]) ->
+  forall j sxj syj szj : R,
+  Sun_rectangular_coordinates_j2000 Rops (C09_geo.ep j) = VTuple [VFloat sxj; VFloat syj; VFloat szj] ->
+  Rlit 98 (-2) <= e -> C09_A_defs.tol0 <= Rabs (e - 1) ->
+  denM aa bb cc am bm cm w sxj syj szj (j - tp) npv npr <> 0 ->
+  Minor_geocentric_position Rops (mobj aa bb cc am bm cm q e inc om w tp n a) (C09_geo.ep j) =
+  VTuple [ang (raM aa bb cc am bm cm w sxj syj szj (j - tp) npv npr);
+          ang (decM aa bb cc am bm cm w sxj syj szj (j - tp) npv npr);
+          ang (psiM aa bb cc am bm cm w sxj syj szj (j - tp) npv npr)].
+Proof. exact (minor_geo_near_parabolic aa bb cc am bm cm q e inc om w tp n a npv npr). Qed.
+
+(* [ideal, generated code] Minor.heliocentric_ecliptical_position *)
+Theorem C09_minor_helio (aa bb cc am bm cm q e inc om w tp n a : R) (kE kv : R -> R -> R) :
+  (forall e0 m, f_kepler_equation Rops (VFloat e0) (ang m) = VTuple [ang (kE e0 m); ang (kv e0 m)]) ->
+  (forall e0 m, -360 < kE e0 m < 360) ->
+  forall j : R,
+  Minor_heliocentric_ecliptical_position Rops (mobj aa bb cc am bm cm q e inc om w tp n a) (C09_geo.ep j) =
+  VTuple [ang (red360 (lam_of (ecl_x e inc om w n a kE kv (j - tp)) (ecl_y e inc om w n a kE kv (j - tp)) * (180 / PI)));
+          ang (red360 (bet_of (ecl_x e inc om w n a kE kv (j - tp)) (ecl_y e inc om w n a kE kv (j - tp)) (ecl_z e inc w n a kE kv (j - tp)) * (180 / PI)))].
+Proof. exact (minor_helio aa bb cc am bm cm q e inc om w tp n a kE kv). Qed.
+
+(* [generated closed forms -> spec] the elongation of a minor body: Cauchy-Schwarz keeps the acos argument in
+   [-1,1]; psi in [0,180], cos psi = <g, s>/(|g||s|) *)
+Theorem C09_minor_elongation (aa bb cc am bm cm w sxj syj szj dt1 : R) (vf rf : R -> R) :
+  denM aa bb cc am bm cm w sxj syj szj dt1 vf rf <> 0 ->
+  psiM aa bb cc am bm cm w sxj syj szj dt1 vf rf = r2d (acos (cospsiM aa bb cc am bm cm w sxj syj szj dt1 vf rf)) /\
+  0 <= psiM aa bb cc am bm cm w sxj syj szj dt1 vf rf <= 180 /\
+  cos (psiM aa bb cc am bm cm w sxj syj szj dt1 vf rf * (PI / 180)) = cospsiM aa bb cc am bm cm w sxj syj szj dt1 vf rf.
+Proof. exact (minor_elongation aa bb cc am bm cm w sxj syj szj dt1 vf rf). Qed.
+
+(* [generated closed forms -> spec] ra, dec of a minor body are the direction of body(t - tau) + Sun(t) *)
+Theorem C09_minor_direction (aa bb cc am bm cm w sxj syj szj dt1 : R) (vf rf : R -> R) :
+  let t2 := dt2M aa bb cc am bm cm w sxj syj szj dt1 vf rf in
+  let gx := gxM aa am w sxj vf rf t2 in let gy := gyM bb bm w syj vf rf t2 in let gz := gzM cc cm w szj vf rf t2 in
+  gx <> 0 \/ gy <> 0 ->
+  raM aa bb cc am bm cm w sxj syj szj dt1 vf rf = r2d (lam_of gx gy) /\
+  decM aa bb cc am bm cm w sxj syj szj dt1 vf rf = r2d (bet_of gx gy gz) /\
+  gx = norm3 gx gy gz * (cos (bet_of gx gy gz) * cos (lam_of gx gy)) /\
+  gy = norm3 gx gy gz * (cos (bet_of gx gy gz) * sin (lam_of gx gy)) /\
+  gz = norm3 gx gy gz * sin (bet_of gx gy gz).
+Proof. exact (minor_direction aa bb cc am bm cm w sxj syj szj dt1 vf rf). Qed.
 
 Redirect "C09_final_stage_direction.assumptions" Print Assumptions C09_final_stage_direction.
 Redirect "C09_elongation_range.assumptions" Print Assumptions C09_elongation_range.
@@ -118,10 +281,18 @@ Redirect "C09_corrections_small.assumptions" Print Assumptions C09_corrections_s
 Redirect "C09_minor_set.assumptions" Print Assumptions C09_minor_set.
 Redirect "C09_minor_set_parabolic.assumptions" Print Assumptions C09_minor_set_parabolic.
 Redirect "C09_minor_gauss.assumptions" Print Assumptions C09_minor_gauss.
-Redirect "C09_light_time_Mercury.assumptions" Print Assumptions C09_light_time_Mercury.
-Redirect "C09_light_time_Venus.assumptions" Print Assumptions C09_light_time_Venus.
-Redirect "C09_light_time_Mars.assumptions" Print Assumptions C09_light_time_Mars.
-Redirect "C09_light_time_Jupiter.assumptions" Print Assumptions C09_light_time_Jupiter.
-Redirect "C09_light_time_Saturn.assumptions" Print Assumptions C09_light_time_Saturn.
-Redirect "C09_light_time_Uranus.assumptions" Print Assumptions C09_light_time_Uranus.
-Redirect "C09_light_time_Neptune.assumptions" Print Assumptions C09_light_time_Neptune.
+Redirect "C09_body_Mercury.assumptions" Print Assumptions C09_body_Mercury.
+Redirect "C09_body_Venus.assumptions" Print Assumptions C09_body_Venus.
+Redirect "C09_body_Mars.assumptions" Print Assumptions C09_body_Mars.
+Redirect "C09_body_Jupiter.assumptions" Print Assumptions C09_body_Jupiter.
+Redirect "C09_body_Saturn.assumptions" Print Assumptions C09_body_Saturn.
+Redirect "C09_body_Uranus.assumptions" Print Assumptions C09_body_Uranus.
+Redirect "C09_body_Neptune.assumptions" Print Assumptions C09_body_Neptune.
+Redirect "C09_body_direction.assumptions" Print Assumptions C09_body_direction.
+Redirect "C09_body_corrections.assumptions" Print Assumptions C09_body_corrections.
+Redirect "C09_body_elongation.assumptions" Print Assumptions C09_body_elongation.
+Redirect "C09_minor_geo_elliptic.assumptions" Print Assumptions C09_minor_geo_elliptic.
+Redirect "C09_minor_geo_near_parabolic.assumptions" Print Assumptions C09_minor_geo_near_parabolic.
+Redirect "C09_minor_helio.assumptions" Print Assumptions C09_minor_helio.
+Redirect "C09_minor_elongation.assumptions" Print Assumptions C09_minor_elongation.
+Redirect "C09_minor_direction.assumptions" Print Assumptions C09_minor_direction.
